@@ -58,6 +58,34 @@ fn of_vtree(t: &VTree) -> Sh {
 }
 
 fn gen_clauses(rng: &mut Rng, frac: usize, thorough: bool) -> Vec<Vec<i64>> {
+    // spread family (one case in six beyond the first fifth): 6..10 variable indices of which one to
+    // three are unused (gaps below the largest label), the smallest labels mostly in unit clauses,
+    // and clauses whose variables lie far apart -- long spans make the iterative heuristics run
+    // several passes
+    if frac >= 20 && rng.chance(1, 6) {
+        let nv = rng.range(6, 10);
+        let mut pool: Vec<usize> = (0..nv).collect();
+        for _ in 0..rng.range(1, 3) {
+            let k = rng.below(pool.len() as u64 - 1) as usize; // never the largest label
+            pool.remove(k);
+        }
+        let lowest: Vec<usize> = pool.iter().cloned().take(rng.range(1, 2)).collect();
+        let rest: Vec<usize> = pool.iter().cloned().filter(|v| !lowest.contains(v) || rng.chance(1, 4)).collect();
+        let lit = |rng: &mut Rng, v: usize| { let x = v as i64 + 1; if rng.coin() { x } else { -x } };
+        let mut cls: Vec<Vec<i64>> = vec![];
+        for v in &lowest {
+            cls.push(vec![lit(rng, *v)]);
+        }
+        for _ in 0..rng.range(1, 4) {
+            let a = rest[rng.below((rest.len() as u64 + 1) / 2) as usize];
+            let b = rest[rest.len() - 1 - rng.below((rest.len() as u64 + 1) / 2) as usize];
+            let mut c = vec![lit(rng, a), lit(rng, b)];
+            if rng.chance(1, 3) { let x = *rng.pick(&rest); c.push(lit(rng, x)); }
+            cls.push(c);
+        }
+        if rng.coin() { rng.shuffle(&mut cls); }
+        return cls;
+    }
     let maxv = if thorough { 8 } else { 6 };
     let nv = 2 + rng.range(0, ((frac * (maxv - 2)) / 100).max(2));
     let ncl = if rng.chance(1, 25) { 0 } else { rng.range(1, 3 + (frac * 6) / 100) };
